@@ -217,6 +217,118 @@ func init() {
 			st.States, st.Transitions, st.Nontrivial = st.Execs, st.Execs, st.Execs
 			st.NOutcomes = int(st.Execs)
 		}
+		// ... nor on whether the entry has been through the store in between (evicted and reloaded, restart)
+		if c.Want("table-after-store-round-trip") {
+			st := c.Stat("table-after-store-round-trip", "enumeration")
+			st.Bounds = "min {16,1024} x raw size min-1/min/min+1/4*min x 7 variant subsets x 3 type cases x 9 clients: the entry is encoded and decoded with pike's record format, then served"
+			custom := regexp.MustCompile(`image`)
+			var idx int64
+			for _, min := range []int{16, 1024} {
+				for _, L := range []int{min - 1, min, min + 1, 4 * min} {
+					raw := bytes.Repeat([]byte("ab"), L)[:L]
+					gzb, brb := refEncode("gzip", raw), refEncode("br", raw)
+					for subset := 1; subset < 8; subset++ {
+						for _, tc := range []struct {
+							ct     string
+							filter *regexp.Regexp
+							match  bool
+						}{{"text/plain", nil, true}, {"image/png", custom, true}, {"image/png", nil, false}} {
+							for _, ae := range c13Clients {
+								idx++
+								if !c.Mine(idx) {
+									continue
+								}
+								resp := &cache.HTTPResponse{StatusCode: 200, Header: http.Header{"Content-Type": {tc.ct}}, CompressMinLength: min, CompressContentTypeFilter: tc.filter}
+								var lr, lg, lb int
+								if subset&1 != 0 {
+									resp.RawBody, lr = raw, len(raw)
+								}
+								if subset&2 != 0 {
+									resp.GzipBody, lg = gzb, len(gzb)
+								}
+								if subset&4 != 0 {
+									resp.BrBody, lb = brb, len(brb)
+								}
+								kase := map[string]interface{}{"accept": ae, "min": min, "rawLen": L, "subset(raw=1,gzip=2,br=4)": subset, "type": tc.ct}
+								rec, err := resp.Bytes()
+								if err != nil {
+									c.Violation("table-after-store-round-trip", "encode-error", err.Error(), nil, kase, nil)
+									continue
+								}
+								back := &cache.HTTPResponse{}
+								if err := back.FromBytes(rec); err != nil {
+									c.Violation("table-after-store-round-trip", "decode-error", err.Error(), nil, kase, nil)
+									continue
+								}
+								st.Execs++
+								want := refNegotiate(ae, lg, lb, lr, lg > 0, lb > 0, min, tc.match)
+								enc, body, _, _, err := fillVia(back, ae)
+								if err != nil {
+									c.Violation("table-after-store-round-trip", "fill-error", err.Error(), nil, kase, nil)
+									continue
+								}
+								if enc != want {
+									c.Violation("table-after-store-round-trip", fmt.Sprintf("encoding-%q-expected-%q-after-reload-from-store", enc, want), fmt.Sprintf("entry (stored raw %d gzip %d br %d, min %d, type %s) encoded and decoded again: client %q was sent %q; the decision table says %q", lr, lg, lb, min, tc.ct, ae, enc, want), nil, kase, nil)
+								}
+								if dec, derr := refDecode(enc, body); derr != nil || !bytes.Equal(dec, raw) {
+									c.Violation("table-after-store-round-trip", "body-altered", fmt.Sprintf("client %q after a reload from the store: decoded body differs (err %v, %d bytes)", ae, derr, len(dec)), nil, kase, nil)
+								}
+							}
+						}
+					}
+				}
+			}
+			st.States, st.Transitions, st.Nontrivial = st.Execs, st.Execs, st.Execs
+			st.NOutcomes = int(st.Execs)
+		}
+		// servers of one configuration have their own compress settings (a server without any gets the defaults)
+		if c.Want("two-servers-own-settings") && c.Shard == 0 {
+			st := c.Stat("two-servers-own-settings", "enumeration")
+			st.Bounds = "two servers in both orders: one with min length 4kb and filter javascript|css, one without compress settings: 2000 / 6000-byte text, json, css bodies x clients {gzip, br, none} on each"
+			for _, first := range []int{0, 1} {
+				cfg := env.BasicConfig(config.CacheConfig{})
+				a := config.ServerConfig{Addr: "127.0.0.1:0", Locations: []string{"loc"}, Cache: "c1", CompressMinLength: "4kb", CompressContentTypeFilter: "javascript|css"}
+				b := config.ServerConfig{Addr: "127.0.0.2:0", Locations: []string{"loc"}, Cache: "c1"}
+				cfg.Servers = []config.ServerConfig{a, b}
+				if first == 1 {
+					cfg.Servers = []config.ServerConfig{b, a}
+				}
+				e := env.New(cfg)
+				procEnv = nil
+				defRe := regexp.MustCompile(`text|javascript|json|wasm|xml|font`)
+				aRe := regexp.MustCompile(`javascript|css`)
+				for _, srv := range []struct {
+					addr string
+					min  int
+					re   *regexp.Regexp
+				}{{a.Addr, 4000, aRe}, {b.Addr, 1024, defRe}} {
+					for _, L := range []int{2000, 6000} {
+						for _, ct := range []string{"text/plain", "application/json", "text/css"} {
+							for _, ae := range []string{"gzip", "br", ""} {
+								raw := []byte(c20Payload(L))
+								e.Respond = func(oc *env.OriginCall) env.OriginResp {
+									return env.OriginResp{Status: 200, Header: http.Header{"Cache-Control": {"no-cache"}, "Content-Type": {ct}}, Body: raw}
+								}
+								hdr := http.Header{}
+								if ae != "" {
+									hdr.Set("Accept-Encoding", ae)
+								}
+								r := e.Do(env.Req{Addr: srv.addr, URI: fmt.Sprintf("/t%d", L), Rid: "r", Header: hdr})
+								e.Events()
+								st.Execs++
+								want := refNegotiate(ae, 0, 0, L, false, false, srv.min, srv.re.MatchString(ct))
+								if got := r.Header.Get("Content-Encoding"); r.Status != 200 || got != want {
+									c.Violation("two-servers-own-settings", fmt.Sprintf("encoding-%q-expected-%q", got, want), fmt.Sprintf("server %s (min %d, filter %s; configured %s): a %d-byte %s body for a client accepting %q was sent with Content-Encoding %q (status %d), its own settings say %q", srv.addr, srv.min, srv.re, []string{"first", "second"}[(first+map[string]int{a.Addr: 0, b.Addr: 1}[srv.addr])%2], L, ct, ae, got, r.Status, want), nil, map[string]interface{}{"order": first, "server": srv.addr, "len": L, "type": ct, "accept": ae}, nil)
+								}
+							}
+						}
+					}
+				}
+				e.Close()
+			}
+			st.States, st.Transitions, st.Nontrivial = st.Execs, st.Execs, st.Execs
+			st.NOutcomes = int(st.Execs)
+		}
 		// the table under the server's CURRENT settings: thresholds and filters changed by a reload apply to the next response
 		if c.Want("table-after-reload") && c.Shard == 0 {
 			st := c.Stat("table-after-reload", "enumeration")
